@@ -33,6 +33,11 @@ var anyRows = []anyRow{
 	{name: "list-any-not-a-list", json: `{"a": 1}`, typ: "[any]", refuse: true},
 	{name: "list-any-scalar", json: `5`, typ: "[any]", refuse: true},
 	{name: "anyobj-mixed", json: `{"a": 1, "b": "x", "c": [true]}`, typ: "{ ? }", uses: `println(v.keys().len());`, want: "3\n"},
+	// JSON numbers without a fraction that no int can hold are floats
+	{name: "huge-integral-number-is-a-float", json: `1e19`, typ: "float", uses: `println(v > 9000000000000000000.0, v < 11000000000000000000.0);`, want: "true true\n"},
+	{name: "huge-numbers-in-a-list", json: `[1e300, -1e19, 9223372036854775808, 1.5]`, typ: "[float]", uses: `println(v[0] > 1000000000000000000000.0, v[1] < 0.0 - 9000000000000000000.0, v[2] > 9200000000000000000.0, v[3]);`, want: "true true true 1.5\n"},
+	{name: "huge-number-in-an-object", json: `{"x": 1e19, "n": 1}`, typ: "{ x: float, n: int }", uses: `println(v.x > 9000000000000000000.0, v.n);`, want: "true 1\n"},
+	{name: "huge-number-in-an-option", json: `[1e19, null]`, typ: "[?float]", uses: `println(v[0].unwrap() > 9000000000000000000.0, v[1].is_none());`, want: "true true\n"},
 	{name: "list-of-anyobj", json: `[{"a": 1}, {"b": "x"}]`, typ: "[{ ? }]", uses: `println(v.len(), v[0].keys().len(), v[1].keys().len());`, want: "2 1 1\n"},
 }
 
